@@ -379,7 +379,7 @@ def judge(ctx, traces, what, canaries=True):
                                  if k in ("ev", "path", "out", "r", "op")}})
     if canaries:
         if len([i for i in bad if i >= n]) != len(cans):
-            raise MachineryError("Trace_Cloud accepted a canary")
+            ctx.defer_machinery("Trace_Cloud accepted a canary")
         if not cans and not any(i < n for i in bad):
             raise MachineryError("no canary could be built and nothing was rejected: the binding of Trace_Cloud is not demonstrated")
         ctx.extra["canaries_rejected"] = ctx.extra.get("canaries_rejected", 0) + len(cans)
@@ -466,7 +466,7 @@ def smarthome_runs(ctx):
                               name="C19_sh", consts=consts % 1000)
     n = len(traces)
     if len([i for i in bad if i >= n]) != len(cans):
-        raise MachineryError("Trace_SmartHome accepted a canary")
+        ctx.defer_machinery("Trace_SmartHome accepted a canary")
     for i, clause in sorted(bad.items()):
         if i >= n:
             continue
